@@ -640,7 +640,12 @@ def fmt_sym(body, s, depth=0):
     if k == 'proj':
         return '%s%s' % (fmt_sym(body, s[1]), s[2])
     if k == 'agg':
-        return '%s{%s}' % (s[2] or s[1], ', '.join(fmt_sym(body, a) for a in s[4]))
+        name = s[2] or s[1]
+        if s[1] == 'adt' and s[3]:
+            name = name.rsplit('::', 1)[-1] + '::' + s[3]
+        if s[1] == 'adt' and not s[4]:
+            return name
+        return '%s{%s}' % (name, ', '.join(fmt_sym(body, a) for a in s[4]))
     return str(s)
 
 
